@@ -85,10 +85,16 @@ func (s *Stash) Add(form Form) {
 	}
 	s.forms = append(s.forms, form.Dup())
 	if 0 < len(s.filename) {
+		verifPoint("stash.add:open:before", s.filename)
 		f, err := os.OpenFile(s.filename, os.O_APPEND|os.O_CREATE|os.O_WRONLY, 0644)
 		if err == nil {
+			verifPoint("stash.add:open:after", s.filename)
+			defer verifPoint("stash.add:close:after", s.filename)
 			defer func() { _ = f.Close() }()
+			defer verifPoint("stash.add:close:before", s.filename)
+			verifPoint("stash.add:write:before", s.filename)
 			_, err = f.Write(append(form.Append(nil), '\n'))
+			verifPoint("stash.add:write:after", s.filename)
 		}
 		if err != nil {
 			panic(err)
@@ -169,15 +175,21 @@ func (s *Stash) Clear(start, end int) {
 	if len(s.filename) == 0 {
 		return
 	}
+	verifPoint("stash.clear:truncate:before", s.filename)
 	f, err := os.OpenFile(s.filename, os.O_TRUNC|os.O_APPEND|os.O_CREATE|os.O_WRONLY, 0644)
 	if err != nil {
 		panic(err)
 	}
+	verifPoint("stash.clear:truncate:after", s.filename)
+	defer verifPoint("stash.clear:close:after", s.filename)
 	defer func() { _ = f.Close() }()
+	defer verifPoint("stash.clear:close:before", s.filename)
 	for _, frm := range s.forms {
+		verifPoint("stash.clear:write:before", s.filename)
 		if _, err = f.Write(frm.TabAppend(nil)); err != nil {
 			panic(err)
 		}
+		verifPoint("stash.clear:write:after", s.filename)
 	}
 }
 
